@@ -1038,7 +1038,19 @@ func (d *Dialer) markAvailableTraffic(typ *NetworkType) collectionUpdate {
 
 func (d *Dialer) informDialerGroupUpdate(update collectionUpdate) {
 	for _, a := range update.aliveDialerGroups {
-		a.NotifyLatencyChange(d, update.alive)
+		alive := update.alive
+		for {
+			a.NotifyLatencyChange(d, alive)
+			// The state is changed under collectionFineMu but the groups are
+			// told afterwards, so the notification of a concurrent, newer report
+			// can be overtaken by this one. Re-check after notifying so that a
+			// group never keeps a stale view of this dialer.
+			cur := d.MustGetAlive(a.CheckTyp)
+			if cur == alive {
+				break
+			}
+			alive = cur
+		}
 	}
 }
 
